@@ -448,7 +448,7 @@ func HostileMessage(mid []byte, parsed bool) (m *fbb.Message, ok bool) {
 	return m, true
 }
 
-var relaySeq int
+var relaySeq, batchSeq int
 
 func applyJailOp(h *mailbox.DirHandler, mbox string, op Op) string {
 	mid := string(op.MID)
@@ -459,6 +459,32 @@ func applyJailOp(h *mailbox.DirHandler, mbox string, op Op) string {
 			return "skipped: the library's message parser refused the bytes"
 		}
 		if err := h.ProcessInbound(m); err != nil {
+			return "error: " + err.Error()
+		}
+		return "nil"
+	case "batch-invalid-first", "batch-good-baddate-hostile", "batch-two-hostile":
+		// one ProcessInbound call with several messages (the public API is variadic): failures of
+		// earlier messages of the batch must not open the way for a later one
+		hostile, ok := HostileMessage(op.MID, false)
+		if !ok {
+			return "skipped: the library's message parser refused the bytes"
+		}
+		batchSeq++
+		var msgs []*fbb.Message
+		switch op.Kind {
+		case "batch-invalid-first":
+			first, _ := HostileMessage([]byte("a/b"), false)
+			msgs = []*fbb.Message{first, hostile}
+		case "batch-good-baddate-hostile":
+			good := MsgSpec{MID: fmt.Sprintf("BATCHOK%05d", batchSeq%100000), To: []string{"N0DST"}}.Build()
+			bad := MsgSpec{MID: fmt.Sprintf("BATCHBD%05d", batchSeq%100000), To: []string{"N0DST"}}.Build()
+			bad.Header.Set("Date", "not a date at all")
+			msgs = []*fbb.Message{good, bad, hostile}
+		default:
+			second, _ := HostileMessage(append([]byte("../../second-"), op.MID...), false)
+			msgs = []*fbb.Message{hostile, second, hostile}
+		}
+		if err := h.ProcessInbound(msgs...); err != nil {
 			return "error: " + err.Error()
 		}
 		return "nil"
